@@ -90,56 +90,41 @@ Proof. exact accept_sound. Qed.
    output plus exactly one of succeeded/failed".
 
    Exactly one of succeeded/failed, for any [skip]outputs setting that does
-   not name both (check_task_skip_config rejects that): *)
+   not name both (check_task_skip_config rejects that); `failed` is the one
+   produced iff it is configured, or nothing is configured and `failed` is
+   itself a required output ([emit_failed]; fix ac1cb29): *)
 Theorem c12_skip_exactly_one : forall e outs conf l,
   skip_outputs e outs conf = Some l ->
   ~ (In SUCCEEDED conf /\ In FAILED conf) ->
-  if mem Nat.eqb FAILED conf
-  then In FAILED l /\ ~ In SUCCEEDED l
-  else In SUCCEEDED l /\ ~ In FAILED l.
+  exists ef, emit_failed e outs conf = Some ef /\
+    if ef then In FAILED l /\ ~ In SUCCEEDED l
+    else In SUCCEEDED l /\ ~ In FAILED l.
 Proof. exact skip_exactly_one. Qed.
 
-(* The literal statement about required outputs ... *)
-Definition c12_skip_contains_all_required : Prop :=
-  forall e outs l o,
-    valid e outs -> skip_outputs (Some e) outs [] = Some l ->
-    In o outs -> classify (Some e) outs None o = Opt false -> In o l.
-
-(* ... is FALSE of the code: a task whose `failed` output is required
-   (completion "failed", e.g. from graph `a:fail => b`) gets
-   submitted, started, succeeded.  Known finding
-   skip:default-omits-required-failed. *)
-Theorem c12_skip_contains_all_required_refuted : ~ c12_skip_contains_all_required.
-Proof.
-  intros H.
-  specialize (H (BVar FAILED) [0;1;2;3;4;5] [1;3;4] FAILED).
-  assert (Hin : In FAILED [1;3;4]).
-  { apply H.
-    - intros a [<-|[]]. right. cbn. tauto.
-    - vm_compute. reflexivity.
-    - cbn. tauto.
-    - vm_compute. reflexivity. }
-  cbn in Hin. unfold FAILED in Hin. intuition discriminate.
-Qed.
-
-(* What does hold: every required output other than `failed` is generated
-   (this uses monotonicity: disabling `failed` can only make more outputs
-   required), and process_outputs never raises on a valid expression. *)
-Theorem c12_skip_contains_required_partial : forall e outs l o,
+(* Every required output is generated by default skip mode (this uses
+   monotonicity: disabling one of succeeded/failed can only make more outputs
+   required).  The only exclusion is an expression that requires BOTH
+   succeeded and failed: then the two halves of the sentence contradict each
+   other for any output set, and the code keeps "exactly one". *)
+Theorem c12_skip_contains_all_required : forall e outs l o,
   valid e outs ->
   skip_outputs (Some e) outs [] = Some l ->
-  In o outs -> classify (Some e) outs None o = Opt false ->
-  o <> FAILED -> In o l.
+  ~ (In SUCCEEDED outs /\ classify (Some e) outs None SUCCEEDED = Opt false /\
+     In FAILED outs /\ classify (Some e) outs None FAILED = Opt false) ->
+  In o outs -> classify (Some e) outs None o = Opt false -> In o l.
 Proof. exact skip_default_contains_required. Qed.
 
 (* Link with C11: when the task has no user expression, every output that the
    GRAPH marks required (other than succeeded/failed) is generated by default
    skip mode — even when success is optional and the default expression
    "(x and succeeded) or failed" therefore classifies x as optional; this is
-   what the `disable` argument is for. *)
+   what the `disable` argument is for.  (Excluded: the degenerate flag
+   combination in which failure is tolerated and yet `failed` is necessary,
+   e.g. succeeded optional + failed required: `failed` alone completes.) *)
 Theorem c12_skip_default_expr_contains_graph_required : forall (t : tdef) e l o,
   In SUCCEEDED (map fst t) -> In FAILED (map fst t) ->
   default_expr t = Some e ->
+  (fail_tolerated t = true -> classify (Some e) (map fst t) None FAILED <> Opt false) ->
   skip_outputs (Some e) (map fst t) [] = Some l ->
   In o (required t) -> o <> SUCCEEDED -> o <> FAILED -> In o l.
 Proof. exact skip_default_graph_required. Qed.
@@ -171,6 +156,10 @@ Example c12_ex3 :
 Proof. vm_compute. reflexivity. Qed.
 Example c12_ex_skip :
   skip_outputs (Some ex2) [0;1;2;3;4;5;6;7] [] = Some [1;3;4;6;7].
+Proof. vm_compute. reflexivity. Qed.
+(* regression witness of the fixed finding: completion "failed" (graph `a:fail => b`) *)
+Example c12_ex_skip_failed_required :
+  skip_outputs (Some (BVar FAILED)) [0;1;2;3;4;5] [] = Some [1;3;5].
 Proof. vm_compute. reflexivity. Qed.
 (* validation: x (6) required in the graph, succeeded optional *)
 Definition ex_t : tdef :=
